@@ -5,8 +5,9 @@ in a scratch worktree of /repo: (1) the patch applies, (2) the crate's own suite
 /verif/seeded/<ID>-<x>/{patch.diff,demo.rs,README.md,meta.json}.  Scratch worktrees are removed."""
 import json, os, re, shutil, subprocess, sys, time
 from concurrent.futures import ThreadPoolExecutor
-SRC = "/tmp/seedout"
+SRC = os.environ.get("SEED_SRC", "/tmp/seedout")
 OUT = "/verif/seeded"
+PREFIX = os.environ.get("SEED_PREFIX", "")
 ENV = dict(os.environ, CARGO_NET_OFFLINE="true")
 
 def sh(cmd, cwd, timeout=1500, env=None):
@@ -19,7 +20,7 @@ def sh(cmd, cwd, timeout=1500, env=None):
 def one(args):
     pid, x = args
     src = os.path.join(SRC, pid, x)
-    name = f"{pid}-{x}"
+    name = f"{PREFIX}{pid}-{x}"
     dst = os.path.join(OUT, name)
     os.makedirs(dst, exist_ok=True)
     for f in ("patch.diff", "demo.rs", "README.md"):
@@ -87,7 +88,7 @@ def main():
     os.makedirs("/tmp/seedverify", exist_ok=True)
     with ThreadPoolExecutor(max_workers=5) as ex:
         for meta in ex.map(one, jobs):
-            name = f"{meta['property']}-{meta['variant']}"
+            name = f"{PREFIX}{meta['property']}-{meta['variant']}"
             p = os.path.join(OUT, name, "meta.json")
             old = json.load(open(p)) if os.path.exists(p) else {}
             old.update(meta)
